@@ -239,14 +239,16 @@ def judge(case):
 
 
 # --------------------------------------------------------------------------- single-preemption sweeps
-def _lines_alone(case):
+def _lines_alone(case, want_log=False):
     """traced line count of operation 0 of `case` when it runs alone"""
     E = sut.evaluator_mod().ExperimentEvaluator
     shared_evs = [E(SOURCES[s]) for s in case["shared"]]
     fns = _build_ops(case, shared_evs, E)
     s = sched.Scheduler(fns[:1], [(0, 10 ** 9)], cycle=False)
+    if want_log:
+        s.log = []
     s.run()
-    return s.lines[0]
+    return (s.lines[0], s.log) if want_log else s.lines[0]
 
 
 def sweep_pairs(ctx):
@@ -298,18 +300,46 @@ def call_call_cases(ctx):
                        "schedule": [[0, L], [1, m], [0, 10 ** 9], [1, 10 ** 9]]}
 
 
+def construct_double_cases(ctx):
+    """two constructions: B starts and is pre-empted after m lines (early / half-way), A then runs up to a coverage-directed
+    point (after the first / last execution of each of its distinct library lines), B finishes, A finishes.  Whatever A leaves
+    set while it is suspended is seen by the END of an operation that STARTED before - which no single pre-emption shows"""
+    combos = [(5, 4), (0, 1)] if ctx.quick else [(5, 4), (0, 1), (1, 5), (3, 0), (2, 5), (5, 5), (8, 0)]
+    if ctx.nshards > 1:
+        combos = [c for i, c in enumerate(combos) if i % ctx.nshards == ctx.shard % len(combos)] or combos[:1]
+    for a, b in combos:
+        opa, opb = {"k": "construct", "src": a}, {"k": "construct", "src": b}
+        _, log = _lines_alone({"shared": [0], "ops": [opa], "schedule": []}, want_log=True)
+        tb = _lines_alone({"shared": [0], "ops": [opb], "schedule": []})
+        first, last = {}, {}
+        for i, k in enumerate(log):
+            first.setdefault(k, i + 1)
+            last[k] = i + 1
+        ms = [40, tb // 2] if ctx.quick else [5, 15, 40, 100, tb // 4, tb // 2, 3 * tb // 4, tb - 40]
+        for m in ms:
+            for L in sorted(set(first.values()) | set(last.values())):
+                yield {"shared": [0], "ops": [opa, opb], "cycle": False, "sweep": True, "schedule": [[1, max(1, m)], [0, L], [1, 10 ** 9], [0, 10 ** 9]]}
+
+
 def sweep_cases(ctx):
     pairs = sweep_pairs(ctx)
     if ctx.quick:
         pairs = [pairs[i] for i in (0, 4, 8, 11, 13, 16, 19, 22, 23, 24, 26) if i < len(pairs)]
     for shared, a, b in pairs:
         base = {"shared": shared, "ops": [a, b], "cycle": False}
-        total = _lines_alone(dict(base, schedule=[]))
+        total, log = _lines_alone(dict(base, schedule=[]), want_log=True)
+        # coverage-directed points: right after the FIRST and the LAST execution of every distinct library line of operation A
+        # (every statement that touches shared state is pre-empted at least once, wherever in the run it sits)
+        first, last = {}, {}
+        for i, k in enumerate(log):
+            first.setdefault(k, i + 1)
+            last[k] = i + 1
+        directed = set(first.values()) | set(last.values())
         if ctx.quick:
-            points = sorted(set(range(max(1, total - 260), total + 1)) | set(range(1, 25)))
+            points = sorted(set(range(max(1, total - 80), total + 1)) | set(range(1, 25)) | directed)
         else:
             step = max(1, total // 6000)
-            points = sorted(set(range(1, total + 1, step)) | set(range(max(1, total - 1500), total + 1)))
+            points = sorted(set(range(1, total + 1, step)) | set(range(max(1, total - 1500), total + 1)) | directed)
         for L in points:
             yield dict(base, schedule=[[0, L], [1, 10 ** 9], [0, 10 ** 9]], sweep=True)
 
@@ -467,6 +497,9 @@ def run(ctx, rec):
     if rec.violations:
         return
     runner.direct_run(ctx, rec, "call-call-double-sweeps", call_call_cases(ctx), judge)
+    if rec.violations:
+        return
+    runner.direct_run(ctx, rec, "construct-construct-double-sweeps", construct_double_cases(ctx), judge)
     if rec.violations:
         return
     cold = st.builds(lambda a, b, ls: {"srcs": [a, b], "preempt_after": sorted(ls)}, st.integers(0, len(SOURCES) - 1),
